@@ -54,17 +54,17 @@ JSTYPE = {"str": "string", "bool": "boolean", "int": "integer", "obj": "object"}
 # one representative per kind of value; strT / str1 are the strings that print like the boolean / the integer
 VALUE = {"str": "tagx", "strT": "true", "str1": "1", "strOff": "off-enum", "bool": True, "int": 1, "null": None,
          "obj": {"n": 1}, "objM": {"m": "x"}, "objNM": {"n": 1, "m": "x"}, "arr": ["a", "b"], "arrBad": ["a", 2]}
-KEYS = ["ks", "kb", "ki", "ko", "ka", "zz"]
-_T4 = {"ks": {"type": "string"}, "kb": {"type": "boolean"}, "ki": {"type": "integer"}, "ko": {"type": "object"}}
-_RC = {"type": "object", "additionalProperties": False, "required": ["ks"], "properties": _T4}
+KEYS = ["ks", "kb", "km", "ki", "ko", "ka", "zz"]
+_T4 = {"mock-build-tags": {"type": "string"}, "unroll-variadic": {"type": "boolean"}, "ki": {"type": "integer"}, "ko": {"type": "object"}}
+_RC = {"type": "object", "additionalProperties": False, "required": ["mock-build-tags"], "properties": _T4}
 # the JSON text of the custom schemas of SchemaMC!MCShapes (the accept sets there are re-derived from these texts)
 SHAPE_JSON = {
     "RC": _RC, "RDR": _RC,
-    "RO": {"type": "object", "required": ["ks"], "properties": _T4},
+    "RO": {"type": "object", "required": ["mock-build-tags"], "properties": _T4},
     "CL": {"type": "object", "additionalProperties": False, "required": [], "properties": _T4},
     "OP": {"type": "object", "properties": _T4},
-    "RX": {"type": "object", "additionalProperties": False, "required": ["ks"], "properties": {
-        "ks": {"type": "string", "enum": ["tagx", "true", "1"]}, "kb": {"type": "boolean"}, "ki": {"type": "integer"},
+    "RX": {"type": "object", "additionalProperties": False, "required": ["mock-build-tags"], "properties": {
+        "mock-build-tags": {"type": "string", "enum": ["tagx", "true", "1"]}, "unroll-variadic": {"type": "boolean"}, "ki": {"type": "integer"},
         "ko": {"type": "object", "additionalProperties": False, "maxProperties": 1,
                "properties": {"n": {"type": "integer"}, "m": {"type": "string"}}},
         "ka": {"type": "array", "items": {"type": "string"}}}},
@@ -129,6 +129,8 @@ def check_tables(shapes, schema_of, keymap):
                 if mini_valid(doc, js) != model:
                     raise MachineryError(f"schema {sid}: {k}={val!r} is {'accepted' if model else 'rejected'} by SchemaMC.tla "
                                          "and the other way round by the JSON text")
+# ONE naming of the abstract keys for every template kind (runs may mix them): custom schemas use the same names
+REAL = {"ks": "mock-build-tags", "kb": "unroll-variadic", "km": "skip-ensure", "ki": "ki", "ko": "ko", "ka": "ka", "zz": "zz-unknown"}
 KEYMAP = {"testify": {"ks": "mock-build-tags", "kb": "unroll-variadic"},
           "matryer": {"ks": "mock-build-tags", "kb": "with-resets"}}
 LEVELS = ["root", "pkg", "iA1", "iA2", "e1", "e2"]
@@ -140,7 +142,7 @@ OLD = "// OLD CONTENT %s\npackage old\n"
 
 
 def key_of(tmpl, k):
-    return KEYMAP.get(tmpl, {}).get(k, {"zz": "zz-unknown"}.get(k, k))
+    return REAL[k]
 
 
 def check_builtin(ctx, builtin):
@@ -215,20 +217,23 @@ class World:
         tmpl = c["tmpl"]
         files = {"go.mod": vlib.GO_SUM_MOD, "p1/s.go": SRC}
         prefix = f"/c{idx}"
-        if tmpl in ("testify", "matryer"):
-            turl = tmpl
-            base = None
-        elif tmpl == "file":
-            turl = f"file://{R}/tpl/t.templ"
+        # the custom kind of this case (a run may mix built-in and custom templates, never two custom kinds);
+        # explicit template-schema locations exist for purely built-in cases too (file://)
+        kinds = [tmpl] + [v for v in c["tpl"].values() if v != "unset"]
+        ckind = next((k for k in kinds if k in ("file", "http")), "file")
+        if ckind == "file":
+            curl = f"file://{R}/tpl/t.templ"
             files["tpl/t.templ"] = TEMPLATE
             base = f"file://{R}/tpl/"
         else:
-            turl = f"http://127.0.0.1:{web.port}{prefix}/t.templ"
+            curl = f"http://127.0.0.1:{web.port}{prefix}/t.templ"
             web.routes[f"{prefix}/t.templ"] = TEMPLATE.encode()
             base = f"http://127.0.0.1:{web.port}{prefix}/"
+        turl_of = {"testify": "testify", "matryer": "matryer", "file": curl, "http": curl}
+        turl = turl_of[tmpl]
         self.urls = {}
         if base:
-            self.urls = {"default": turl + ".schema.json", "alt1": base + "alt1.json", "alt2": base + "sub/alt2.schema.json",
+            self.urls = {"default": curl + ".schema.json", "alt1": base + "alt1.json", "alt2": base + "sub/alt2.schema.json",
                          "pA1": base + "if_A1.json", "pA2": base + "if_A2.json", "perif": base + "if_{{.InterfaceName}}.json"}
             for loc, st in c["loc"].items():
                 if st == "absent":
@@ -251,8 +256,10 @@ class World:
             data = fix(c["data"][lv])
             if data:
                 d["template-data"] = {key_of(tmpl, k): VALUE[kind] for k, kind in data.items()}
-            if c["tsch"][lv] != "unset" and base:
+            if c["tsch"][lv] != "unset":
                 d["template-schema"] = self.urls[c["tsch"][lv]]
+            if c["tpl"][lv] != "unset":
+                d["template"] = turl_of[c["tpl"][lv]]
             if c["req"][lv] != "unset":      # also for built-in templates (whose schema needs no fetching)
                 d["require-template-schema-exists"] = c["req"][lv] == "true"
             return d
@@ -460,6 +467,12 @@ def _run(ctx):
             lambda c: c["fam"] == "S" and c["tmpl"] == "http" and c["expect"]["F1"]["state"] == "RDR",
         "a template-schema templated per interface with different verdicts":
             lambda c: c["fam"] == "P" and {c["expect"]["F1"]["verdict"], c["expect"]["F2"]["verdict"]} == {"ok", "bad"},
+        "testify and matryer files in one run, each with data only its own schema knows":
+            lambda c: c["fam"] == "M" and {c["expect"]["F1"]["tmpl"], c["expect"]["F2"]["tmpl"]} == {"testify", "matryer"} and c["must_succeed"]
+            and fix(c["data"]["iA1"]) and fix(c["data"]["iA2"]),
+        "a built-in file that inherits an explicit template-schema which is absent":
+            lambda c: c["fam"] == "M" and c["expect"]["F1"]["tmpl"] == "testify" and c["tsch"]["root"] == "alt1" and c["loc"]["alt1"] == "absent"
+            and c["expect"]["F1"]["verdict"] == "ok",
         "a built-in template, require-template-schema-exists false, violating data":
             lambda c: c["tmpl"] in ("testify", "matryer") and not c["expect"]["F1"]["require"] and c["expect"]["F1"]["verdict"] == "bad",
         "a wrong type repaired by a more specific level": lambda c: fix(c["data"]["root"]).get("kb") == "str" and c["expect"]["F1"]["bad_maps"] == ["file"] and
@@ -490,7 +503,8 @@ def _run(ctx):
         rng.shuffle(cases)
         seen, pick, rest = set(), [], []
         for c in cases:
-            k = (c["fam"], c["tmpl"], c["expect"]["F1"]["verdict"], c["expect"]["F2"]["verdict"],
+            k = (c["fam"], c["tmpl"], c["expect"]["F1"]["tmpl"], c["expect"]["F2"]["tmpl"],
+                 c["expect"]["F1"]["verdict"], c["expect"]["F2"]["verdict"],
                  tuple(c["expect"]["F1"]["bad_maps"]), tuple(c["expect"]["F2"]["bad_maps"]),
                  c["expect"]["F1"]["validate"], c["expect"]["F2"]["validate"])
             if c["fam"] == "A" and c["must_succeed"]:
@@ -503,16 +517,18 @@ def _run(ctx):
                 # look-alikes: every (key, conforming level, violating level) once, whatever the template
                 pair, levs = c["id"].split("/")[2].split(".")[:2]
                 k = ("L", pair, levs[1] if pair.endswith("null") else levs[:2])
+            if c["fam"] == "M":
+                k += (c["id"].split("/")[2].split(".")[1], c["expect"]["F1"]["require"])     # inherited template-schema / require
             if c["fam"] in ("X", "S", "P"):
                 k += (c["id"].split("/")[2].rsplit(".", 1)[0],)      # which feature / state, not which level
             if c["fam"] == "N":
                 k = ("N",) + tuple(c["id"].split("/")[2].split("."))      # schema shape, key, level
-            if k not in seen and (len(pick) < 450 or c["fam"] in ("L", "R", "N", "X", "S", "P")):
+            if k not in seen and (len(pick) < 450 or c["fam"] in ("L", "R", "N", "X", "S", "P", "M")):
                 seen.add(k)
                 pick.append(c)
             else:
                 rest.append(c)
-        pick += rest[:max(0, 880 - len(pick))]
+        pick += rest[:max(0, 960 - len(pick))]
     for what, pred in guards.items():     # the sample must keep the interesting situations
         if replay_only:
             break
@@ -535,6 +551,15 @@ def _run(ctx):
             res = res2
         with judge.lock:
             judge.judge(w, res, web)
+        mixed = {c["expect"]["F1"]["tmpl"], c["expect"]["F2"]["tmpl"]} >= {"testify", "matryer"}
+        if mixed:
+            # which output file is generated first is up to Go's map order: a few more draws
+            for k in range(2):
+                w = World(ctx, 200000 + 10 * i + k, c, shapes, web)
+                res = run_bin(ctx, w)
+                if not res.timed_out:
+                    with judge.lock:
+                        judge.judge(w, res, web)
     try:
         with ThreadPoolExecutor(max_workers=8) as ex:
             list(ex.map(one, enumerate(pick)))
